@@ -220,3 +220,24 @@ def follow_delegate(f: FuncInfo) -> FuncInfo:
             return f
         f = t
     return f
+
+
+def canon_text(expr: ast.AST, f: FuncInfo, depth: int = 3) -> str:
+    """Text of expr with every single-assignment local replaced by its defining expression (bounded): a key that does not
+    change when locals are renamed."""
+    import copy
+    defs = local_single_defs(f)
+
+    class Sub(ast.NodeTransformer):
+        def __init__(self, d):
+            self.d = d
+
+        def visit_Name(self, n):
+            if isinstance(n.ctx, ast.Load) and n.id in defs and self.d > 0:
+                return Sub(self.d - 1).visit(copy.deepcopy(defs[n.id]))
+            if n.id in assigned and n.id not in defs:
+                return ast.Name(id="<local>", ctx=n.ctx)   # a local with several definitions: role-less placeholder
+            return n
+    params = {a.arg for a in f.node.args.posonlyargs + f.node.args.args + f.node.args.kwonlyargs}
+    assigned = {x.id for x in ast.walk(f.node) if isinstance(x, ast.Name) and isinstance(x.ctx, ast.Store)} - params
+    return norm(Sub(depth).visit(copy.deepcopy(expr)))
